@@ -262,6 +262,26 @@ def run_impl(cases, shards=NPROC, timeout=1800, env=None):
     return [parse_result(l) for l in _run_lines([IMPLRUN], lines, shards, timeout, env=env)]
 
 
+def run_impl_isolated(cases, timeout=60, env=None):
+    """one process per case (for cases that may abort the process, e.g. by stack overflow, or never
+    terminate); a crash or a timeout is a result: ["aborted", returncode] / ["timeout"]"""
+    import concurrent.futures
+
+    def one(c):
+        try:
+            r = subprocess.run([IMPLRUN], input=dumps(c) + "\n", stdout=subprocess.PIPE, stderr=subprocess.PIPE,
+                               text=True, timeout=timeout, env=env or ENV)
+        except subprocess.TimeoutExpired:
+            return ["timeout"]
+        got = [l for l in r.stdout.split("\n") if l]
+        if r.returncode != 0 or len(got) != 1:
+            return ["aborted", r.returncode, r.stderr[-300:]]
+        return parse_result(got[0])
+
+    with concurrent.futures.ThreadPoolExecutor(max_workers=NPROC) as ex:
+        return list(ex.map(one, cases))
+
+
 def b2s(b):
     """list of byte values -> readable string for samples"""
     try:
@@ -417,6 +437,12 @@ class Check:
         spec = [v for v in self.violations if v[0] == "spec"]
         noin = [v for v in self.violations if v[0] == "no-input"]
         lines = []
+        hist = {}
+        for kind, desc, rep in self.violations:
+            k = kind + ": " + re.sub(r"[0-9]+", "N", desc)[:110]
+            hist[k] = hist.get(k, 0) + 1
+        for k, v in sorted(hist.items(), key=lambda kv: -kv[1])[:25]:
+            log("  [%d x] %s" % (v, k))
         for i, (kind, desc, rep) in enumerate(spec[:5]):
             path = os.path.join(REPLAY, "%s-%d-%d.json" % (self.pid, self.seed, i))
             json.dump({"property": self.pid, "kind": "failing-input", "what": desc, "replay": rep},
